@@ -184,7 +184,7 @@ def handlePTN : Handler := fun st op args =>
     some (st, match (if res == "err" then some (Except.error (Err.illegal "json")) else (parseKV res).map Except.ok) with
       | none => "bad-arg"
       | some (lib : R (List (Bytes × Int))) =>
-        fmtR (TextGlue.unmarshalWeights ⟨fun _ => lib⟩ (Array.replicate Facts.maxFeature 0) []) fmtInts)
+        fmtR (TextGlue.unmarshalWeights ⟨fun _ => lib⟩ TextGlue.featureNames (Array.replicate Facts.maxFeature 0) []) fmtInts)
   | _, _ => none
 
 end Driver
